@@ -77,6 +77,13 @@ def check(ctx: Ctx) -> str:
     from .c22 import fresh_list_rule
 
     fresh_list_rule(ctx, "R6")
+    # "the same output as an isolated render" across environments: an overlay must not serve
+    # templates compiled for its parent (own cache: C25.R4, own lexer: C13.R6)
+    from . import c13
+    from . import c25
+
+    ctx.run_imported("C25", {"R4"}, c25.check)
+    ctx.run_imported("C13", {"R6"}, c13.check)
     return __doc__ or ""
 
 
